@@ -1219,7 +1219,26 @@ def extract_merge_headers(repo, parents):
         if isinstance(n, ast.Call) and ast.unparse(n.func) == "merge_headers":
             calls.append(", ".join(ast.unparse(a) for a in n.args))
     sites_ok = sorted(calls) == sorted(["self._proxy_headers, request.headers", "[(b'Host', target), (b'Accept', b'*/*')], self._proxy_headers"])
-    return ["/-- `merge_headers` has the body the model `Establish.mergeHeaders` stands for (copies of both arguments, overridden defaults",
+    # the requests httpcore builds for the proxy itself (CONNECT, forwarded request) do not inherit the caller's `target` extension
+    built = []
+    for cls in ("AsyncForwardHTTPConnection", "AsyncTunnelHTTPConnection"):
+        f = _find_func(tree, "handle_async_request", cls=cls)
+        for n in ast.walk(f):
+            if isinstance(n, ast.Call) and ast.unparse(n.func) == "Request":
+                ext = [k.value for k in n.keywords if k.arg == "extensions"]
+                ok_ext = False
+                if len(ext) == 1 and isinstance(ext[0], ast.Name):
+                    # the name must be bound, in this function, to {key: value for key, value in request.extensions.items() if key != 'target'}
+                    for a in ast.walk(f):
+                        if isinstance(a, ast.Assign) and len(a.targets) == 1 and ast.unparse(a.targets[0]) == ext[0].id and \
+                                ast.unparse(a.value) == "{key: value for key, value in request.extensions.items() if key != 'target'}":
+                            ok_ext = True
+                built.append((cls, ok_ext))
+    drops = len(built) == 2 and all(o for _, o in built)
+    drop_lines = ["/-- the CONNECT request and the forwarded request are built with the caller's extensions *minus* `target` (which describes the",
+                  "request line of the caller's own request and is part of `request.url` already) -/",
+                  "def proxyRequestsDropTargetExtension : Bool := " + ("true" if drops else "false")]
+    return drop_lines + ["/-- `merge_headers` has the body the model `Establish.mergeHeaders` stands for (copies of both arguments, overridden defaults",
             "dropped case-insensitively, defaults before overrides; no in-place change of an argument), and it is called with",
             "(proxy headers, request headers) for forwarded requests and (Host + Accept, proxy headers) for CONNECT -/",
             "def mergeHeadersAsModelled : Bool := " + ("true" if ok and sites_ok else "false")]
